@@ -834,132 +834,208 @@ fn c10_new_http11_close_in_second_connection_field() {
 }
 
 // =====================================================================================
-// C11 — Expect: 100-continue handshake (httparse replaced by the script environment)
+// C11 — Expect: 100-continue handshake
+//
+// httparse is replaced by the script environment (parser_h.rs). So that a solver counterexample can
+// still be replayed natively - where stubs are inert and the REAL httparse runs - every cell feeds the
+// real byte string of its scenario; the script is the outcome httparse produces for exactly those
+// bytes. A native replay is therefore an end-to-end run of the scenario through the public function.
 // =====================================================================================
 use crate::parser::verif_h as ph;
 
-/// kind/version/code as in parser_h; `consumed` symbolic where relevant.
-fn c11_try_read_100_case(kind: usize, version: usize, code_sel: usize) {
-    // code_sel: 0 None, 1 => 100, 2 => any other valid status (symbolic), 3 => 42 (invalid status)
-    let code = match code_sel {
-        0 => 0usize,
-        1 => 100,
-        2 => {
+/// Scenario bytes: `HTTP/1.<v> <ccc> X CRLF [A: b CRLF] CRLF` + filler. Returns (buffer, head length).
+fn c11_bytes(v: u8, code: usize, bad_digit: bool, with_field: bool) -> ([u8; 28], usize) {
+    let mut b = [b'N'; 28];
+    let head = b"HTTP/1.1 000 X\r\n";
+    let mut i = 0;
+    while i < 16 {
+        b[i] = head[i];
+        i += 1;
+    }
+    b[7] = b'0' + v;
+    b[9] = b'0' + (code / 100) as u8;
+    b[10] = if bad_digit { b'x' } else { b'0' + ((code / 10) % 10) as u8 };
+    b[11] = b'0' + (code % 10) as u8;
+    let mut n = 16;
+    if with_field {
+        let f = b"A: b\r\n";
+        let mut j = 0;
+        while j < 6 {
+            b[n + j] = f[j];
+            j += 1;
+        }
+        n += 6;
+    }
+    b[n] = b'\r';
+    b[n + 1] = b'\n';
+    (b, n + 2)
+}
+
+/// sc: 0 empty input | 1 "HTTP/1.1" | 2 status line without the empty line | 3 bare 100 | 4 bare 100 (HTTP/1.0)
+///     5 bare other 1xx | 6 bare final status | 7 status + one field | 8 malformed status | 9 status code 042
+fn c11_try_read_100_case(sc: usize) {
+    let code = match sc {
+        5 => {
             let c: usize = kani::any();
-            kani::assume(c >= 101 && c <= 999);
+            kani::assume(c >= 101 && c <= 199);
             c
         }
-        _ => 42,
+        6 | 7 => {
+            let c: usize = kani::any();
+            kani::assume(c >= 200 && c <= 999);
+            c
+        }
+        8 => 403,
+        9 => 42,
+        _ => {
+            // (drawn symbolically although it is fixed: with a literal 100 CBMC constant-propagates the
+            //  whole http::Response and then reports a bogus invalid free when it is dropped)
+            let c: usize = kani::any();
+            kani::assume(c == 100);
+            c
+        }
     };
-    let l = any_le(8);
-    let buf = [b'H'; 8];
-    let consumed: usize = kani::any();
-    kani::assume(consumed >= 1 && consumed <= l);
-    ph::script(kind, version, code, consumed, if kind == 2 { 1 } else { 0 }, 0);
+    let (buf, head_len) = c11_bytes(if sc == 4 { 0 } else { 1 }, code, sc == 8, sc == 7);
+    let extra = any_le(4);
+    let l = match sc {
+        0 => 0,
+        1 => 8,
+        2 => 16,
+        _ => head_len + extra,
+    };
+    // what httparse reports for exactly these bytes
+    match sc {
+        0 => ph::script(0, 0, 0, 0, 0, 0),
+        1 => ph::script(0, 2, 0, 0, 0, 0),
+        2 => ph::script(0, 2, 100, 0, 0, 0),
+        3 | 5 | 6 | 9 => ph::script(1, 2, code, head_len, 0, 0),
+        4 => ph::script(1, 1, code, head_len, 0, 0),
+        7 => ph::script(2, 2, code, 0, 1, 0),
+        _ => ph::script(3, 2, 0, 0, 0, 0),
+    }
     let reasons = any_reasons(false, false);
     let n0 = reasons_count(&reasons);
     let holder = CallHolder::WithBody(ch::mk_call_in(2, 0, bh::mk_writer_chunked(false), None, true));
     let mut flow: Flow<(), Await100> = mk_flow(mk_inner(holder, &reasons, true, true, None, None));
     let r = flow.try_read_100(&buf[..l]);
-    let version_ok = version == 1 || version == 2;
-    if kind == 0 {
-        // the input ends inside the status line or right after it
-        assert!(matches!(r, Ok(0)), "C11/incomplete-input-decides-nothing-consumes-nothing");
-        assert!(flow.can_keep_await_100() && flow.inner.should_send_body, "C11/incomplete-input-changes-nothing");
-        assert!(flow.inner.close_reason.len() == n0, "C11/incomplete-input-changes-nothing");
-    } else if kind == 1 && version_ok && code_sel == 1 {
-        assert!(matches!(r, Ok(n) if n == consumed), "C11/bare-100-consumed-exactly");
-        assert!(!flow.can_keep_await_100() && flow.inner.should_send_body, "C11/100-leads-to-sending-the-body");
-        assert!(flow.inner.close_reason.len() == n0, "C11/100-does-not-mark-must-close");
-    } else if (kind == 1 && version_ok && code_sel == 2) || kind == 2 {
-        assert!(matches!(r, Ok(0)), "C11/other-response-consumes-nothing");
-        assert!(!flow.can_keep_await_100() && !flow.inner.should_send_body, "C11/other-response-cancels-the-body");
-        assert!(flow.inner.close_reason.len() == n0 + 1, "C11/other-response-marks-must-close");
-        assert!(flow.inner.close_reason[n0] == CloseReason::Not100Continue, "C10/not-100-continue-recorded");
-    } else {
-        assert!(r.is_err(), "C11/malformed-interim-response-is-an-error");
-        assert!(flow.inner.close_reason.len() == n0, "C10/no-reason-without-condition");
+    match sc {
+        0 | 1 | 2 => {
+            assert!(matches!(r, Ok(0)), "C11/incomplete-input-decides-nothing-consumes-nothing");
+            assert!(flow.can_keep_await_100() && flow.inner.should_send_body, "C11/incomplete-input-changes-nothing");
+            assert!(flow.inner.close_reason.len() == n0, "C11/incomplete-input-changes-nothing");
+        }
+        3 | 4 => {
+            assert!(matches!(r, Ok(n) if n == head_len), "C11/bare-100-consumed-exactly");
+            assert!(!flow.can_keep_await_100() && flow.inner.should_send_body, "C11/100-leads-to-sending-the-body");
+            assert!(flow.inner.close_reason.len() == n0, "C11/100-does-not-mark-must-close");
+        }
+        5 | 6 | 7 => {
+            assert!(matches!(r, Ok(0)), "C11/other-response-consumes-nothing");
+            assert!(!flow.can_keep_await_100() && !flow.inner.should_send_body, "C11/other-response-cancels-the-body");
+            assert!(flow.inner.close_reason.len() == n0 + 1, "C11/other-response-marks-must-close");
+            assert!(flow.inner.close_reason[n0] == CloseReason::Not100Continue, "C10/not-100-continue-recorded");
+        }
+        _ => {
+            assert!(r.is_err(), "C11/malformed-interim-response-is-an-error");
+            assert!(flow.inner.close_reason.len() == n0, "C10/no-reason-without-condition");
+        }
     }
     kani::cover!(true, "cell-reached");
     core::mem::forget(r);
     core::mem::forget(flow);
 }
 
-//@ props: C11 C10 C12
+//@ props: C11 C10 C12 C01
 //@ tier: quick
 //@ unwind: 6
-//@ unwindset: memcmp=12
-//@ timeout: 1200
+//@ unwindset: memcmp=12 c11_bytes=18
+//@ timeout: 1500
 //@ mem: 24
-//@ encodes: Flow::<Await100>::try_read_100, parser::try_parse_response::<0> (hoot's glue around httparse), ArrayVec::push, http::response::Builder
-//@ stubs_note: httparse::Response::parse replaced by the script environment (parser_h.rs): every outcome allowed by the stated contract of httparse, one script per execution
-//@ vars: concrete per harness: httparse outcome (Partial with nothing / version only / version+code; Complete with code 100 / any other status 101..=999 (symbolic) / invalid status / unsupported version; TooManyHeaders (= fields follow the status line); other parse error). Symbolic: offered length <= 8, consumed 1..=len, recorded close reasons
-//@ bounds: httparse's outcomes as a set; the bytes themselves are abstracted by the script
-//@ outside: httparse's own tokenizer (trusted, contract spot-validated natively)
-//@ clause: incomplete input decides nothing and consumes nothing; a complete bare 100 is consumed exactly and the body is still due; any other response (with or without fields) consumes nothing, cancels the body and records Not100Continue; malformed input is an error
+//@ encodes: Flow::<Await100>::try_read_100, parser::try_parse_response::<0> (hoot's glue around httparse), ArrayVec::push
+//@ stubs_note: httparse::Response::parse replaced by the script environment (parser_h.rs): the outcome httparse produces for the scenario's bytes; native replay runs the real httparse on those bytes
+//@ vars: concrete per harness: the scenario (empty input | version token only | status line without the empty line | status + one field | malformed status digit | status code 042). Symbolic: status within its class, number of trailing bytes of a following message (0..=4), recorded close reasons
+//@ bounds: one scenario per harness; heads of 18 (24) bytes
+//@ outside: httparse's own tokenizer (trusted; exercised for real in native replays), other reason phrases
+//@ clause: incomplete input decides nothing and consumes nothing; any response with fields consumes nothing, cancels the body and records Not100Continue; malformed input is an error
 #[kani::proof]
 #[kani::stub(httparse::Response::parse, crate::parser::verif_h::httparse_response_script)]
 fn c11_try_read_100_partial_empty() {
-    c11_try_read_100_case(0, 0, 0);
+    c11_try_read_100_case(0);
 }
 
 //@ like: c11_try_read_100_partial_empty
 #[kani::proof]
 #[kani::stub(httparse::Response::parse, crate::parser::verif_h::httparse_response_script)]
 fn c11_try_read_100_partial_version_only() {
-    c11_try_read_100_case(0, 2, 0);
+    c11_try_read_100_case(1);
 }
 
 //@ like: c11_try_read_100_partial_empty
 #[kani::proof]
 #[kani::stub(httparse::Response::parse, crate::parser::verif_h::httparse_response_script)]
 fn c11_try_read_100_partial_after_status_line() {
-    c11_try_read_100_case(0, 2, 1);
-}
-
-//@ like: c11_try_read_100_partial_empty
-//@ tier: off
-#[kani::proof]
-#[kani::stub(httparse::Response::parse, crate::parser::verif_h::httparse_response_script)]
-fn c11_try_read_100_complete_100() {
-    c11_try_read_100_case(1, 2, 1);
-}
-
-//@ like: c11_try_read_100_partial_empty
-//@ tier: off
-#[kani::proof]
-#[kani::stub(httparse::Response::parse, crate::parser::verif_h::httparse_response_script)]
-fn c11_try_read_100_complete_100_http10() {
-    c11_try_read_100_case(1, 1, 1);
-}
-
-//@ like: c11_try_read_100_partial_empty
-//@ tier: off
-#[kani::proof]
-#[kani::stub(httparse::Response::parse, crate::parser::verif_h::httparse_response_script)]
-fn c11_try_read_100_complete_other_status() {
-    c11_try_read_100_case(1, 2, 2);
+    c11_try_read_100_case(2);
 }
 
 //@ like: c11_try_read_100_partial_empty
 #[kani::proof]
 #[kani::stub(httparse::Response::parse, crate::parser::verif_h::httparse_response_script)]
 fn c11_try_read_100_response_with_fields() {
-    c11_try_read_100_case(2, 2, 2);
+    c11_try_read_100_case(7);
 }
 
 //@ like: c11_try_read_100_partial_empty
 #[kani::proof]
 #[kani::stub(httparse::Response::parse, crate::parser::verif_h::httparse_response_script)]
 fn c11_try_read_100_parse_error() {
-    c11_try_read_100_case(3, 0, 0);
+    c11_try_read_100_case(8);
 }
 
 //@ like: c11_try_read_100_partial_empty
+//@ tier: off
 #[kani::proof]
 #[kani::stub(httparse::Response::parse, crate::parser::verif_h::httparse_response_script)]
-fn c11_try_read_100_unsupported_version() {
-    c11_try_read_100_case(1, 3, 1);
+fn c11_try_read_100_invalid_status_code() {
+    c11_try_read_100_case(9);
+}
+
+//@ props: C11 C10 C12 C01
+//@ tier: quick
+//@ unwind: 6
+//@ unwindset: memcmp=12 c11_bytes=18
+//@ timeout: 1500
+//@ mem: 24
+//@ encodes: Flow::<Await100>::try_read_100 (decision on a complete header-less interim head), ArrayVec::push
+//@ stubs_note: parser::try_parse_response::<0> replaced AS A WHOLE by the script environment (building an http::Response through hoot's glue does not finish under CBMC): complete head with the scenario's status and version, no fields. Native replay runs the real parser glue and the real httparse on the scenario's bytes
+//@ vars: concrete per harness: status class (100 on HTTP/1.1 | 100 on HTTP/1.0 | any 101..=199 | any 200..=999, symbolic within the class). Symbolic: trailing bytes of a following message (0..=4), recorded close reasons
+//@ bounds: status classes as stated
+//@ outside: hoot's parser glue under the solver (C05/C20 not claimed)
+//@ clause: a complete bare 100 is consumed exactly and leads to sending the body; any other complete response - other 1xx included - consumes nothing, cancels the body and records Not100Continue
+#[kani::proof]
+#[kani::stub(crate::parser::try_parse_response, crate::parser::verif_h::p_try_parse_response)]
+fn c11_try_read_100_complete_bare_100() {
+    c11_try_read_100_case(3);
+}
+
+//@ like: c11_try_read_100_complete_bare_100
+#[kani::proof]
+#[kani::stub(crate::parser::try_parse_response, crate::parser::verif_h::p_try_parse_response)]
+fn c11_try_read_100_complete_bare_100_http10() {
+    c11_try_read_100_case(4);
+}
+
+//@ like: c11_try_read_100_complete_bare_100
+#[kani::proof]
+#[kani::stub(crate::parser::try_parse_response, crate::parser::verif_h::p_try_parse_response)]
+fn c11_try_read_100_complete_other_1xx() {
+    c11_try_read_100_case(5);
+}
+
+//@ like: c11_try_read_100_complete_bare_100
+#[kani::proof]
+#[kani::stub(crate::parser::try_parse_response, crate::parser::verif_h::p_try_parse_response)]
+fn c11_try_read_100_complete_final_status() {
+    c11_try_read_100_case(6);
 }
 
 // =====================================================================================
@@ -1161,3 +1237,4 @@ fn c09_get_expect_despite_method_awaits_100() {
         }
     }
 }
+
